@@ -2,6 +2,7 @@ package ws
 
 import (
 	"fmt"
+	"strconv"
 	"strings"
 
 	"google.golang.org/protobuf/proto"
@@ -63,6 +64,9 @@ func ParseBackX(path, src string) (out map[string]string, syntaxErr bool, err er
 					return fmt.Sprint(u.GetPositiveIntValue())
 				case u.StringValue != nil:
 					return string(u.GetStringValue())
+				case u.DoubleValue != nil:
+					// as the generators spell it: shortest form, exponent without '+'
+					return strings.Replace(strconv.FormatFloat(u.GetDoubleValue(), 'g', -1, 64), "e+", "e", 1)
 				}
 				return "?"
 			}
